@@ -135,7 +135,7 @@ PROPS = {
         rule=HIST_RULE + "; a light client (Stump + Proof + hashes) is updated with Proof.Update from block data and UpdateData only; "
              "remember pattern per history in {none, all, last only, random}; after every block the oracle checks hashes = expected "
              "set ordered by position, targets = true positions, proof = canonical hashes, and Verify accepts",
-        strength="P: set algebra of the cached leaves (abstract); the expected cached proof of any live set exists, is the canonical proof of its leaves and is accepted by the Verify mirror (C07_expected_cached_is_canonical/_exists/_verifies, <= 2^63 leaves); V: Proof.Update output = that expected cached proof, for two clients sharing block data",
+        strength="P: C07_update_addition_blocks - the mirror of Proof.Update computes EXACTLY the expected cached proof for every addition-only block (any forest incl. empty roots written over and row growth, any cached set, any remember pattern, <= 2^63 leaves) and for every block with REGULAR deletions followed by any additions (C07_update_regular_deletion_blocks: any number of deleted leaves as long as no inner node loses all its leaves; survivors and proof positions move up); the full statement incl. whole-subtree deletions decided by kernel computation on all 19,375 cases of 4 slots (C07_update_all_blocks_4_slots; its proof is open); set algebra of the cached leaves (abstract); the expected cached proof of any live set exists, is the canonical proof of its leaves and is accepted by the Verify mirror (C07_expected_cached_is_canonical/_exists/_verifies, <= 2^63 leaves); V: Proof.Update output = that expected cached proof, for two clients sharing block data",
         level_text="The leaf set a client must hold after a block is a Coq theorem on the abstract model; the canonical cached proof of "
                    "that set is computed by the extracted reference and compared with what Proof.Update produced, after every block.",
         technique="Coq abstract model + extracted-oracle correspondence (light client along histories)",
@@ -155,7 +155,7 @@ PROPS = {
              "from NewMapPollardFromRoots at a reached state; after EVERY operation the stored map and cached leaves are dumped: "
              "every stored (pos,hash) true, stored within allowed(R), needed(R) within stored, cached set = R, look-ups, canonical "
              "proofs of random sub-lists of R; distinct_nontrivial = distinct operation sequences",
-        strength="P: ordering of needed positions, read-side theorems on every consistent state (C09c_*); V: stored/needed/allowed invariants and provability after every operation; Gallina mirror of the MUTATORS (Model/MapMut.v: Modify, Undo, Verify(remember), Ingest, Prune) = code state-for-state on every call incl. rejected ones; mirror of the read side (Model/MapRead.v: Prove, GetHash, GetLeafPosition(s), GetRoots, GetMissingPositions, VerifyPartialProof, verify) = code on every dumped state",
+        strength="P: C09_every_history_of_adds_prunes_ingests - from the empty forest EVERY valid sequence of deletion-free blocks, prunes, ingests and verify-with-remember runs without error on the mirror and ends consistent with the reference (all read-side theorems apply), storing only allowed positions; the mutator mirrors PRESERVE one invariant: additions incl. remap and empty roots (C09_additions_preserve_invariant), Prune, Ingest, Verify(remember) (C09_prune/_ingest/_verify_remember_preserves_invariant), with \"stores only what is allowed\" (C09_add_invariant_stores_only_allowed, C09_prune_preserves_tidy); deletions and undo: proof open, V only; ordering of needed positions, read-side theorems on every consistent state (C09c_*); V: stored/needed/allowed invariants and provability after every operation; Gallina mirror of the MUTATORS (Model/MapMut.v: Modify, Undo, Verify(remember), Ingest, Prune) = code state-for-state on every call incl. rejected ones; mirror of the read side (Model/MapRead.v: Prove, GetHash, GetLeafPosition(s), GetRoots, GetMissingPositions, VerifyPartialProof, verify) = code on every dumped state",
         level_text="needed(R) and allowed(R) are defined on the Coq reference; after every operation of random interleavings the "
                    "extracted oracle checks the dumped partial forest against them and against the true hashes.",
         technique="Coq reference model + extracted-oracle invariant check after every operation",
